@@ -459,6 +459,27 @@ func runProperty(o *Options, pc *PropertyConfig) int {
 	for _, is := range issues {
 		if strings.Contains(is, "UNDECIDED(") {
 			undecided = append(undecided, is)
+			// a function whose obligations were discharged on the accepted baseline can no longer be
+			// verified at all (its contract does not evaluate / a construct became unsupported):
+			// the proof that was there is gone, which is reported, not passed over
+			fn := strings.SplitN(is, ": UNDECIDED(", 2)[0]
+			had := false
+			for name := range baseline.Obligations {
+				if strings.HasPrefix(name, fn+"#") {
+					had = true
+					break
+				}
+			}
+			if had && o.Funcs == "" {
+				dir := filepath.Join(o.Out, "replays", o.Property)
+				os.MkdirAll(dir, 0o755)
+				path := filepath.Join(dir, smtIdent(fn)+"_undecidable.json")
+				data, _ := json.MarshalIndent(map[string]interface{}{"property": o.Property, "obligation": fn + "#all", "status": "function no longer verifiable", "verifier_output": is, "reproduced": false}, "", " ")
+				os.WriteFile(path, data, 0o644)
+				violations = append(violations, Violation{Obligation: fn + "#all(no longer verifiable)", Clause: is, Status: "undecidable", ReplayPath: path})
+				fmt.Printf("VIOLATION property=%s replay=%s obligation=%s no-failing-input-found\n", o.Property, path, fn+"#all(no-longer-verifiable)")
+				exitCode = 1
+			}
 		}
 	}
 	sort.Strings(issues)
